@@ -90,7 +90,7 @@ _add(PropertySpec(
 CE = "superrec2.compute.exhaustive"
 _add(PropertySpec(
     "C01", files=["compute_super", "thl"],
-    targets=[f"{CR}:_compute_thl_try_speciation", f"{CR}:_compute_thl_try_duplication_transfer", f"{DP}:Table.entry",
+    targets=[f"{CR}:_compute_thl_try_speciation", f"{CR}:_compute_thl_try_duplication_transfer", f"{CR}:_compute_thl_table", "lemma_thl_lower_bound", f"{DP}:Table.entry",
              f"{DP}:Entry.update", f"{DP}:Entry.combine", f"{DP}:Entry.__iter__",
              f"{MRC}:ReconciliationOutput.node_event", f"{MRC}:ReconciliationOutput._cost_rec", f"{MRC}:ReconciliationOutput.cost",
              f"{TR}:LowestCommonAncestor.is_ancestor_of", f"{TR}:LowestCommonAncestor.distance"],
@@ -98,8 +98,7 @@ _add(PropertySpec(
     technique="contract-based deductive verification of the two THL step functions (Bellman recurrence of the documented event model, value and ALL / ANY tag clauses, frame) "
               "from the real AST, of the entry operations they use and of the cost evaluator the results are ranked by; table fill / decode / re-ranking / exhaustive enumerator: "
               "bounded stand-in against an independent brute-force enumeration and recount",
-    not_decided=["_compute_thl_table (fill order), _decode_thl_table, reconcile_thl (re-ranking), reconcile_exhaustive and generate_all are NOT discharged: bounded stand-in only",
-                 "the lower-bound theorem 'Bellman-closed table => minimum over all valid reconciliations' (L2) is not proved; covered by the bounded comparison with brute force",
+    not_decided=["_decode_thl_table (the value is attained by a decoded reconciliation, coherent region), reconcile_thl (re-ranking over root species), reconcile_exhaustive and generate_all are NOT discharged: bounded stand-in only",
                  "Table / TableProxy / EntryProxy: ASSUMED contracts over an abstract cell map (validated by the bounded Table-proxies stand-in)"],
 ))
 _add(PropertySpec(
